@@ -167,3 +167,202 @@ Qed.
 
 Lemma parse_descriptors_gen : same_on_bytes parse_descriptors gen_descriptors.
 Proof. exact (sim_eq_point _ _ parse_descriptors_sim). Qed.
+
+(* ---------------- the duration parsers of dvb.go ---------------- *)
+
+Lemma parse_dvb_duration_seconds_sim : sim eq parse_dvb_duration_seconds parseDVBDurationSeconds.
+Proof.
+  unfold parse_dvb_duration_seconds, parseDVBDurationSeconds. cbv zeta.
+  eapply sim_bind; [apply sim_next_bytes_nocopy|]. intros bs ? (<- & Hok & Hlen). apply sim_ret.
+  explode_bytes bs Hlen Hok. reflexivity.
+Qed.
+
+Lemma parse_dvb_duration_minutes_sim : sim eq parse_dvb_duration_minutes parseDVBDurationMinutes.
+Proof.
+  unfold parse_dvb_duration_minutes, parseDVBDurationMinutes. cbv zeta.
+  eapply sim_bind; [apply sim_next_bytes_nocopy|]. intros bs ? (<- & Hok & Hlen). apply sim_ret.
+  explode_bytes bs Hlen Hok. reflexivity.
+Qed.
+
+(* ---------------- descriptor bodies ---------------- *)
+
+Ltac step_bytes bs Hok Hlen := eapply sim_bind; [apply sim_next_bytes_nocopy|]; intros bs ? (<- & Hok & Hlen); cbv beta.
+Ltac step_bytesc bs Hok Hlen := eapply sim_bind; [apply sim_next_bytes|]; intros bs ? (<- & Hok & Hlen); cbv beta.
+Ltac step_byte b Hb := eapply sim_bind; [apply sim_next_byte|]; intros b ? (<- & Hb); cbv beta.
+Ltac open_bytes bs Hok Hlen := explode_bytes bs Hlen Hok; nth_lit; let H := fresh "Hok'" in pose proof Hok as H; bytes_inv H.
+
+Lemma new_descriptor_avc_video_sim : sim eq new_descriptor_avc_video newDescriptorAVCVideo.
+Proof.
+  unfold new_descriptor_avc_video, newDescriptorAVCVideo. cbv zeta.
+  step_byte b0 H0. step_byte b1 H1. step_byte b2 H2. step_byte b3 H3. apply sim_ret.
+  psigen_cbv. f_equal; bridge.
+Qed.
+
+Lemma new_descriptor_data_stream_alignment_sim : sim eq new_descriptor_data_stream_alignment newDescriptorDataStreamAlignment.
+Proof.
+  unfold new_descriptor_data_stream_alignment, newDescriptorDataStreamAlignment. cbv zeta.
+  step_byte b Hb. apply sim_ret. reflexivity.
+Qed.
+
+Lemma new_descriptor_maximum_bitrate_sim : sim eq new_descriptor_maximum_bitrate newDescriptorMaximumBitrate.
+Proof.
+  unfold new_descriptor_maximum_bitrate, newDescriptorMaximumBitrate. cbv zeta.
+  step_bytes bs Hok Hlen. apply sim_ret. open_bytes bs Hok Hlen. f_equal. bridge.
+Qed.
+
+Lemma new_descriptor_private_data_indicator_sim : sim eq new_descriptor_private_data_indicator newDescriptorPrivateDataIndicator.
+Proof.
+  unfold new_descriptor_private_data_indicator, newDescriptorPrivateDataIndicator. cbv zeta.
+  step_bytes bs Hok Hlen. apply sim_ret. open_bytes bs Hok Hlen. f_equal. bridge.
+Qed.
+
+Lemma new_descriptor_private_data_specifier_sim : sim eq new_descriptor_private_data_specifier newDescriptorPrivateDataSpecifier.
+Proof.
+  unfold new_descriptor_private_data_specifier, newDescriptorPrivateDataSpecifier. cbv zeta.
+  step_bytes bs Hok Hlen. apply sim_ret. open_bytes bs Hok Hlen. f_equal. bridge.
+Qed.
+
+Lemma new_descriptor_stream_identifier_sim : sim eq new_descriptor_stream_identifier newDescriptorStreamIdentifier.
+Proof.
+  unfold new_descriptor_stream_identifier, newDescriptorStreamIdentifier. cbv zeta.
+  step_byte b Hb. apply sim_ret. reflexivity.
+Qed.
+
+Lemma new_descriptor_unknown_sim t l : sim eq (new_descriptor_unknown t l) (newDescriptorUnknown t l).
+Proof.
+  unfold new_descriptor_unknown, newDescriptorUnknown. cbv zeta.
+  step_bytesc bs Hok Hlen. apply sim_ret. reflexivity.
+Qed.
+
+(* `if i.Offset() < offsetEnd { x, err = i.NextBytes(offsetEnd - i.Offset()) }` *)
+Lemma rest_bytes_sim {A} e (f g : list Z -> A) : (forall bs, f bs = g bs) ->
+  sim eq (ibind (rest_bytes e) (fun bs => iret (f bs)))
+         (ibind ioffset (fun o1 => ibind (if o1 <? e then ibind ioffset (fun o2 => ibind (next_bytes (e - o2)) (fun r => iret (g r))) else iret (g []))
+                                         (fun d => iret d))).
+Proof.
+  intros H i Hi. unfold rest_bytes, ibind, ioffset, iret. destruct (ioff i <? e); [|rewrite H; auto].
+  pose proof (sim_next_bytes (e - ioff i) i Hi) as S.
+  destruct (next_bytes (e - ioff i) i) as [[bs i1]|c|]; auto. destruct S as (_ & _ & Hb). rewrite H. auto.
+Qed.
+
+Lemma new_descriptor_registration_sim e : sim eq (new_descriptor_registration e) (newDescriptorRegistration e).
+Proof.
+  unfold new_descriptor_registration, newDescriptorRegistration. cbv zeta.
+  step_bytes bs Hok Hlen. open_bytes bs Hok Hlen.
+  assert (E : bitsf [b; b0; b1; b2] 0 32 =
+     Z.lor (Z.lor (Z.lor (Z.shiftl b 24 mod 4294967296) (Z.shiftl b0 16 mod 4294967296)) (Z.shiftl b1 8 mod 4294967296)) b2) by bridge.
+  rewrite E. apply rest_bytes_sim. intros; reflexivity.
+Qed.
+
+Lemma new_descriptor_network_name_sim e : sim eq (new_descriptor_network_name e) (newDescriptorNetworkName e).
+Proof.
+  unfold new_descriptor_network_name, newDescriptorNetworkName, bytes_to. cbv zeta.
+  apply sim_assoc_l. eapply sim_bind; [apply sim_ioffset|]. intros off ? <-. cbv beta.
+  step_bytesc bs Hok Hlen. apply sim_ret. reflexivity.
+Qed.
+
+Lemma new_descriptor_component_sim e : sim eq (new_descriptor_component e) (newDescriptorComponent e).
+Proof.
+  unfold new_descriptor_component, newDescriptorComponent. cbv zeta.
+  step_byte b0 H0. step_byte ct H1. step_byte cg H2. step_bytesc lang Hok Hlen. psigen_cbn.
+  assert (E1 : bitsf [b0] 4 4 = Z.land b0 15) by bridge.
+  assert (E2 : bitsf [b0] 0 4 = Z.shiftr b0 4) by bridge.
+  rewrite E1, E2. apply rest_bytes_sim. intros; reflexivity.
+Qed.
+
+Lemma new_descriptor_service_sim : sim eq new_descriptor_service newDescriptorService.
+Proof.
+  unfold new_descriptor_service, newDescriptorService. cbv zeta.
+  step_byte ty H0. step_byte pl H1. step_bytesc prov Hok1 Hlen1. step_byte nl H2. step_bytesc name Hok2 Hlen2.
+  apply sim_ret. reflexivity.
+Qed.
+
+Lemma new_descriptor_short_event_sim : sim eq new_descriptor_short_event newDescriptorShortEvent.
+Proof.
+  unfold new_descriptor_short_event, newDescriptorShortEvent. cbv zeta.
+  step_bytesc lang Hok0 Hlen0. step_byte elen H1. step_bytesc name Hok1 Hlen1. step_byte tlen H2. step_bytesc text Hok2 Hlen2.
+  apply sim_ret. reflexivity.
+Qed.
+
+(* a loop of the model (fuel offsetEnd - offset + 1) run on input length + 1 rounds instead *)
+Lemma iloop_len_eq {A} (item : IM A) e : progress item ->
+  forall i, iloop e item i = ibind ilength (fun n => iloop_fuel (S (Z.to_nat n)) e item) i.
+Proof.
+  intros Hp i. unfold iloop, ibind, ioffset, ilength.
+  apply iloop_fuel_enough; [exact Hp|apply enough_end|apply enough_len].
+Qed.
+
+Lemma sim_iloop_len {A B A2} (R : B -> A2 -> Prop) (item : IM A) e (f : list A -> IM B) m2 : progress item ->
+  sim R (ibind ilength (fun n => ibind (iloop_fuel (S (Z.to_nat n)) e item) f)) m2 -> sim R (ibind (iloop e item) f) m2.
+Proof.
+  intros Hp H. eapply sim_trans_eq_l; [exact H|]. intros i _.
+  unfold ibind at 3. rewrite (iloop_len_eq item e Hp i). unfold ibind, ilength. reflexivity.
+Qed.
+
+Lemma progress_content_item : progress content_item.
+Proof.
+  unfold content_item. apply progress_bind_first; [apply progress_next_bytes; lia|].
+  intros bs i b i' E. unfold iret in E. inversion E; subst. split; [lia|reflexivity].
+Qed.
+
+Lemma content_loop_sim e : forall fuel d,
+  sim (fun l d' => d' = set_DescriptorContent_Items (DescriptorContent_Items d ++ l) d)
+      (iloop_fuel fuel e content_item) (newDescriptorContent_loop1 fuel e d).
+Proof.
+  induction fuel as [|k IH]; intros d; [apply sim_err|].
+  cbn [iloop_fuel newDescriptorContent_loop1].
+  eapply sim_bind; [apply sim_ioffset|]. intros off ? <-. cbv beta. apply sim_if.
+  - set (lp := iloop_fuel k e content_item) in *. unfold content_item. cbv zeta.
+    apply sim_assoc_l. step_bytes bs Hok Hlen. apply sim_ret_bind_l'.
+    eapply sim_map_l; [apply IH|]. cbv beta. intros l d' ->.
+    open_bytes bs Hok Hlen. psigen_cbv. rewrite <- app_assoc. cbn [app]. repeat f_equal; bridge.
+  - apply sim_ret. destruct d as [its]. psigen_cbv. rewrite app_nil_r. reflexivity.
+Qed.
+
+Lemma new_descriptor_content_sim e : sim eq (new_descriptor_content e) (newDescriptorContent e).
+Proof.
+  unfold new_descriptor_content, newDescriptorContent. cbv zeta.
+  apply sim_iloop_len; [exact progress_content_item|].
+  eapply sim_bind; [apply sim_ilength|]. intros n ? <-. cbv beta.
+  eapply sim_bind; [apply content_loop_sim|]. cbv beta. intros l d' ->. apply sim_ret. reflexivity.
+Qed.
+
+(* ---------------- pointwise statements ---------------- *)
+
+(* what Props/C14.v quotes *)
+Lemma descriptor_loop_is_source :
+  same_on_bytes parse_descriptors gen_descriptors /\
+  same_on_bytes new_descriptor_avc_video newDescriptorAVCVideo /\
+  same_on_bytes new_descriptor_data_stream_alignment newDescriptorDataStreamAlignment /\
+  same_on_bytes new_descriptor_maximum_bitrate newDescriptorMaximumBitrate /\
+  same_on_bytes new_descriptor_private_data_indicator newDescriptorPrivateDataIndicator /\
+  same_on_bytes new_descriptor_private_data_specifier newDescriptorPrivateDataSpecifier /\
+  same_on_bytes new_descriptor_stream_identifier newDescriptorStreamIdentifier /\
+  (forall t l, same_on_bytes (new_descriptor_unknown t l) (newDescriptorUnknown t l)) /\
+  (forall e, same_on_bytes (new_descriptor_registration e) (newDescriptorRegistration e)) /\
+  (forall e, same_on_bytes (new_descriptor_network_name e) (newDescriptorNetworkName e)) /\
+  (forall e, same_on_bytes (new_descriptor_component e) (newDescriptorComponent e)) /\
+  (forall e, same_on_bytes (new_descriptor_content e) (newDescriptorContent e)) /\
+  same_on_bytes new_descriptor_service newDescriptorService /\
+  same_on_bytes new_descriptor_short_event newDescriptorShortEvent /\
+  same_on_bytes parse_dvb_duration_minutes parseDVBDurationMinutes /\
+  same_on_bytes parse_dvb_duration_seconds parseDVBDurationSeconds.
+Proof.
+  repeat apply conj.
+  - exact parse_descriptors_gen.
+  - exact (sim_eq_point _ _ new_descriptor_avc_video_sim).
+  - exact (sim_eq_point _ _ new_descriptor_data_stream_alignment_sim).
+  - exact (sim_eq_point _ _ new_descriptor_maximum_bitrate_sim).
+  - exact (sim_eq_point _ _ new_descriptor_private_data_indicator_sim).
+  - exact (sim_eq_point _ _ new_descriptor_private_data_specifier_sim).
+  - exact (sim_eq_point _ _ new_descriptor_stream_identifier_sim).
+  - intros t l. exact (sim_eq_point _ _ (new_descriptor_unknown_sim t l)).
+  - intros e. exact (sim_eq_point _ _ (new_descriptor_registration_sim e)).
+  - intros e. exact (sim_eq_point _ _ (new_descriptor_network_name_sim e)).
+  - intros e. exact (sim_eq_point _ _ (new_descriptor_component_sim e)).
+  - intros e. exact (sim_eq_point _ _ (new_descriptor_content_sim e)).
+  - exact (sim_eq_point _ _ new_descriptor_service_sim).
+  - exact (sim_eq_point _ _ new_descriptor_short_event_sim).
+  - exact (sim_eq_point _ _ parse_dvb_duration_minutes_sim).
+  - exact (sim_eq_point _ _ parse_dvb_duration_seconds_sim).
+Qed.
